@@ -1,7 +1,7 @@
 (* Properties_C18.v -- the property theorems, nothing else. *)
 From Coq Require Import List Arith Bool.
 Import ListNotations.
-From Heph Require Import IR.Depth IR.DepthProofs.
+From Heph Require Import IR.Work IR.WorkProofs IR.Depth IR.DepthProofs.
 
 (* at the configured depth (or when only leaves are requested) only leaf generators are offered *)
 Theorem leaves_forced : forall depth max_depth only_leaves exclude_var is_bool ck vars max_vars g,
@@ -36,3 +36,54 @@ Print Assumptions height_bounded.
 Theorem nesting_bounded : forall max t, Gen max 1 t -> height t <= 2 * max + 1.
 Proof. exact nesting_bounded_lem. Qed.
 Print Assumptions nesting_bounded.
+
+(* ---- the other counters that bound the pipeline's work (IR/Work.v) ---- *)
+
+(* process_cp_transformations + ProgramProcessor.transform_program: whatever the transformations do,
+   the loop ends after exactly the remaining number of schedule entries, with the counter at the end *)
+Theorem schedule_loop_terminates : forall p o,
+    cur p <= slen p ->
+    exists applied,
+      cp_loop (slen p - cur p) p o 0 [] = Some ({| cur := slen p; slen := slen p |}, slen p - cur p, applied).
+Proof. exact cp_loop_terminates. Qed.
+Print Assumptions schedule_loop_terminates.
+
+Theorem schedule_loop_calls_each_entry_once : forall n p o k q a,
+    cp_loop n p o 0 [] = Some (q, k, a) -> k = slen p - cur p /\ can_transform q = false.
+Proof. exact cp_loop_calls. Qed.
+Print Assumptions schedule_loop_calls_each_entry_once.
+
+(* TypeErasure.visit_func_decl: at most max_combinations + 1 feasibility checks of the search,
+   and never more than there are combinations *)
+Theorem erasure_search_budget : forall results budget,
+    0 < budget -> snd (search budget 0 results 0) <= S budget.
+Proof. exact search_checks_bounded. Qed.
+Print Assumptions erasure_search_budget.
+
+Theorem erasure_search_total : forall results budget i k,
+    snd (search budget i results k) <= k + length results.
+Proof. exact search_checks_le_total. Qed.
+Print Assumptions erasure_search_total.
+
+Theorem erasure_search_applies_first_feasible : forall results budget j,
+    fst (search budget 0 results 0) = Some j ->
+    nth j results false = true /\ (forall m, m < j -> nth m results false = false) /\ (budget = 0 \/ j <= budget).
+Proof. exact search_finds_first. Qed.
+Print Assumptions erasure_search_applies_first_feasible.
+
+Theorem erasure_search_gives_up_only_within_budget : forall results budget m,
+    fst (search budget 0 results 0) = None ->
+    m < length results -> (budget = 0 \/ m <= budget) -> nth m results false = false.
+Proof. exact search_none. Qed.
+Print Assumptions erasure_search_gives_up_only_within_budget.
+
+(* gen_new: beyond twice the depth limit every non-primitive constructor argument is a bottom
+   constant, in leaves-only mode too *)
+Theorem new_cut_forced : forall sn d m ol, 2 * m < d -> gen_bottom_rule sn d m false ol = true.
+Proof. exact gen_bottom_forced. Qed.
+Print Assumptions new_cut_forced.
+
+Theorem new_cut_ignores_only_leaves : forall sn d m pr ol ol',
+    gen_bottom_rule sn d m pr ol = gen_bottom_rule sn d m pr ol'.
+Proof. exact gen_bottom_ignores_only_leaves. Qed.
+Print Assumptions new_cut_ignores_only_leaves.
